@@ -674,6 +674,8 @@ impl<'a> Read<'a> for StrRead<'a> {
         self.delegate.parse_r6rs_str_bytes(scratch, |_, bytes| {
             // The input is assumed to be valid UTF-8 and the \x-escapes are
             // checked along the way, so don't need to check here.
+            #[cfg(lexpr_verif)]
+            super::verif::utf8_check(bytes);
             Ok(unsafe { str::from_utf8_unchecked(bytes) })
         })
     }
@@ -692,6 +694,8 @@ impl<'a> Read<'a> for StrRead<'a> {
         self.delegate.parse_symbol_bytes(scratch, |_, bytes| {
             // The input is assumed to be valid UTF-8 and the \u-escapes are
             // checked along the way, so don't need to check here.
+            #[cfg(lexpr_verif)]
+            super::verif::utf8_check(bytes);
             Ok(unsafe { str::from_utf8_unchecked(bytes) })
         })
     }
